@@ -620,3 +620,140 @@ def canonicalise_private_attributes(prog: "Program") -> dict[str, str]:
                 n.attr = canon
         # slots tuples etc. are strings - irrelevant for the analysis
     return renamed
+
+
+# ----------------------------------------------------------------------------- constants introduced for readability
+# class-level constants the rules refer to by name: never folded
+NAMED_CLASS_CONSTANTS = {"KEY", "UPDATE_DELAYED_EVERY", "POLLING_WAIT", "PREFETCH_AMOUNT"}
+
+
+def _literal(e: ast.AST | None) -> bool:
+    if isinstance(e, ast.Constant) and isinstance(e.value, (str, int, float, bool, bytes, type(None))):
+        return True
+    if isinstance(e, ast.UnaryOp) and isinstance(e.op, ast.USub) and isinstance(e.operand, ast.Constant) and isinstance(e.operand.value, (int, float)):
+        return True
+    return isinstance(e, ast.Tuple) and all(_literal(x) for x in e.elts)
+
+
+def fold_constants(prog: "Program") -> list[str]:
+    """Normalisation: a module-level (or class-level) name bound exactly once to a literal ("introduce a constant for a magic value") is read as
+    that literal wherever it is loaded, also through `from module import NAME`. Class-level constants the rules name themselves, enum members and
+    anything re-bound, shadowed or declared global are left alone. f-string holes that became literal text are merged into the text.
+    Returns the folded names (for the evidence notes)."""
+    import copy
+
+    folded: list[str] = []
+    mod_consts: dict[str, dict[str, ast.expr]] = {}
+    for m in prog.modules.values():
+        binds: dict[str, list[ast.expr | None]] = {}
+        for st in m.tree.body:
+            tg = None
+            if isinstance(st, ast.Assign) and len(st.targets) == 1 and isinstance(st.targets[0], ast.Name):
+                tg, val = st.targets[0].id, st.value
+            elif isinstance(st, ast.AnnAssign) and isinstance(st.target, ast.Name):
+                tg, val = st.target.id, st.value
+            if tg is not None:
+                binds.setdefault(tg, []).append(val)
+        stored_elsewhere = {n.id for n in ast.walk(m.tree) if isinstance(n, ast.Name) and isinstance(n.ctx, (ast.Store, ast.Del))}
+        globals_ = {nm for n in ast.walk(m.tree) if isinstance(n, (ast.Global, ast.Nonlocal)) for nm in n.names}
+        top_targets = {t for t in binds}
+        consts = {}
+        for name, vals in binds.items():
+            if len(vals) == 1 and _literal(vals[0]) and name not in globals_ and name != "__all__" and not name.startswith("__"):
+                # bound once at module level; a same-named local elsewhere simply shadows it (handled per function)
+                consts[name] = vals[0]
+        mod_consts[m.name] = consts
+        del stored_elsewhere, top_targets
+
+    class_consts: dict[str, dict[str, ast.expr]] = {}
+    for c in prog.classes.values():
+        if any(b.split(".")[-1] in ("Enum", "IntEnum", "StrEnum", "Flag", "IntFlag") for b in c.base_exprs):
+            continue
+        cc = {}
+        for name, v in c.attrs.items():
+            if name in NAMED_CLASS_CONSTANTS or name.startswith("__") or not _literal(v):
+                continue
+            if not (name.upper() == name):  # only CONSTANT_STYLE names: lower-case class attributes are defaults of instance state
+                continue
+            n_bind = sum(1 for st in c.node.body if (isinstance(st, ast.Assign) and any(isinstance(t, ast.Name) and t.id == name for t in st.targets))
+                         or (isinstance(st, ast.AnnAssign) and isinstance(st.target, ast.Name) and st.target.id == name))
+            stored = any(isinstance(a, ast.Attribute) and a.attr == name and isinstance(a.ctx, (ast.Store, ast.Del)) for a in ast.walk(c.module.tree))
+            overridden = any(name in prog.classes[s].attrs for s in prog._subclasses.get(c.qualname, []) if s in prog.classes)
+            if n_bind == 1 and not stored and not overridden:
+                cc[name] = v
+        if cc:
+            class_consts[c.qualname] = cc
+
+    def merge_fstrings(tree: ast.AST) -> None:
+        for js in [n for n in ast.walk(tree) if isinstance(n, ast.JoinedStr)]:
+            out: list[ast.expr] = []
+            for v in js.values:
+                piece = None
+                if isinstance(v, ast.Constant) and isinstance(v.value, str):
+                    piece = v.value
+                elif isinstance(v, ast.FormattedValue) and v.conversion == -1 and v.format_spec is None and isinstance(v.value, ast.Constant) and isinstance(v.value.value, str):
+                    piece = v.value.value
+                if piece is not None and out and isinstance(out[-1], ast.Constant):
+                    out[-1] = ast.copy_location(ast.Constant(value=out[-1].value + piece), out[-1])
+                elif piece is not None:
+                    out.append(ast.copy_location(ast.Constant(value=piece), v))
+                else:
+                    out.append(v)
+            js.values = out
+
+    for m in prog.modules.values():
+        own = mod_consts.get(m.name, {})
+        imported = {}
+        for alias, target in m.imports.items():
+            mod, _, nm = target.rpartition(".")
+            if mod in mod_consts and nm in mod_consts[mod]:
+                imported[alias] = mod_consts[mod][nm]
+        table = {**imported, **own}
+        classes_here = {c.name: class_consts[c.qualname] for c in prog.classes.values() if c.module is m and c.qualname in class_consts}
+        if not table and not classes_here:
+            continue
+        changed = [False]
+
+        def fold_function(fn: ast.AST, cls_name: str | None) -> None:
+            local = {a.arg for a in ast.walk(fn) if isinstance(a, ast.arg)} | {n.id for n in ast.walk(fn) if isinstance(n, ast.Name) and isinstance(n.ctx, (ast.Store, ast.Del))}
+            cc = classes_here.get(cls_name, {}) if cls_name else {}
+
+            class T(ast.NodeTransformer):
+                def visit_Name(self, node):
+                    if isinstance(node.ctx, ast.Load) and node.id in table and node.id not in local:
+                        changed[0] = True
+                        folded.append(f"{m.name}.{node.id}")
+                        return ast.copy_location(copy.deepcopy(table[node.id]), node)
+                    return node
+
+                def visit_Attribute(self, node):
+                    self.generic_visit(node)
+                    if isinstance(node.ctx, ast.Load) and isinstance(node.value, ast.Name):
+                        if node.value.id in ("self", "cls") and node.attr in cc:
+                            changed[0] = True
+                            folded.append(f"{m.name}.{cls_name}.{node.attr}")
+                            return ast.copy_location(copy.deepcopy(cc[node.attr]), node)
+                        if node.value.id in classes_here and node.attr in classes_here[node.value.id] and node.value.id not in local:
+                            changed[0] = True
+                            folded.append(f"{m.name}.{node.value.id}.{node.attr}")
+                            return ast.copy_location(copy.deepcopy(classes_here[node.value.id][node.attr]), node)
+                    return node
+
+            fn.body = [T().visit(st) for st in fn.body]
+            # decorators, defaults and annotations are left as written
+
+        def walk(body, cls_name):
+            for st in body:
+                if isinstance(st, (ast.FunctionDef, ast.AsyncFunctionDef)):
+                    fold_function(st, cls_name)
+                elif isinstance(st, ast.ClassDef):
+                    walk(st.body, st.name)
+                elif isinstance(st, (ast.If, ast.Try)):
+                    walk(getattr(st, "body", []), cls_name)
+                    walk(getattr(st, "orelse", []), cls_name)
+
+        walk(m.tree.body, None)
+        if changed[0]:
+            merge_fstrings(m.tree)
+            ast.fix_missing_locations(m.tree)
+    return sorted(set(folded))
